@@ -509,8 +509,8 @@ func RunC09(c *Ctx) error {
 			for _, fs := range flagSubsets() {
 				if c.Tier == "thorough" {
 					for ei, env := range envs {
-						if id == "calc" || ei%5 == len(fs)%5 {
-							add(gc, fs, env) // calc: every flag subset in every environment; the others: a fifth
+						if id == "calc" || ei%8 == len(fs)%8 {
+							add(gc, fs, env) // calc: every flag subset in every environment; the others: an eighth
 						}
 					}
 				} else {
@@ -635,8 +635,8 @@ func RunC09(c *Ctx) error {
 		if c.Tier == "quick" && !(ci%29 == 0 || (cs.gc.ID == "calc" || cs.gc.ID == "lexonly") && len(cs.flags) <= 1) {
 			continue
 		}
-		if c.Tier == "thorough" && !(len(cs.flags) <= len(cs.gc.NeedFlags)+1 && cs.gc.IR != nil || ci%6 == 0) {
-			continue // thorough: every configuration with at most one optional flag, every sixth of the others
+		if c.Tier == "thorough" && !(len(cs.flags) <= len(cs.gc.NeedFlags)+1 && cs.gc.IR != nil && !cs.gc.IR.Big || ci%12 == 0) {
+			continue // thorough: every configuration with at most one optional flag, every twelfth of the others
 		}
 		faultCfgs++
 		rr := prng.Sub(c.Seed, "c09/"+cs.key(), ci)
@@ -791,7 +791,7 @@ func RunC09(c *Ctx) error {
 	var mjobs []*mjob
 	nMut := 10
 	if c.Tier == "thorough" {
-		nMut = 120
+		nMut = 60
 	}
 	for ci, cs := range cfgs {
 		if len(cs.flags) != len(cs.gc.NeedFlags) || cs.env != (c09Env{}) && cs.env != envs[ci%len(envs)] {
